@@ -87,8 +87,8 @@ func UniquePool() []Member {
 
 func Run(r *ev.Run) {
 	thorough := r.Tier == "thorough"
-	r.Rule("(i) enum lists of length 0..2 (thorough 3, the third member over every other pool value) and const over a 25-value pool, built by Unmarshal and as Go literals in canonical and in two alternative exact representations, x every pool value in every G-rep representation (<=1 deviating node): pass iff R2-equal to a member; " +
-		"(ii) uniqueItems on every []any of length 0..3 (thorough 4; quick length 4 over a 12-element sub-pool) over a 25-element pool with equal-but-not-identical members (1 / json.Number 1.0 / 1e0 / int8(1); permuted and differently typed maps; []any / []int / [1]int; 2^63 as uint64 and float64; 256 as float64 and json.Number; nil and nil pointer): pass iff no two elements are R2-equal. Every call draws a fresh hash seed; each array is validated 3 times; (iii) uniqueItems / enum / const below applicators that do not abort the call (contains, anyOf, oneOf, not, if) x every pair and selected triples of 9 small arrays in one instance, compared with R1. Non-trivial = every case (distinct by construction)")
+	r.Rule("(i) enum lists of length 0..2 (thorough 3, the third member over every third pool value) and const over a 25-value pool, built by Unmarshal and as Go literals in canonical and in two alternative exact representations, x every pool value in every G-rep representation (<=1 deviating node): pass iff R2-equal to a member; " +
+		"(ii) uniqueItems on every []any of length 0..3 (thorough 4; quick length 4 over a 12-element sub-pool) over a 25-element pool with equal-but-not-identical members (1 / json.Number 1.0 / 1e0 / int8(1); permuted and differently typed maps; []any / []int / [1]int; 2^63 as uint64 and float64; 256 as float64 and json.Number; nil and nil pointer): pass iff no two elements are R2-equal. Every call draws a fresh hash seed; each array is validated 3 times; (iii) uniqueItems / enum / const below applicators that do not abort the call (contains, anyOf, oneOf, not, if) x every pair and selected triples of 9 small arrays in one instance, compared with R1; (iv) uniqueItems beside items / prefixItems / contains / additionalItems / a draft-07 $ref with siblings that type (some of) the items x 22 arrays, compared with R1; (v) in the instrumented build: equal wide objects (9 and 12 members) under every map order with <=3 deviations. Non-trivial = every case (distinct by construction)")
 	r.Assume("R2 canonical equality is the oracle; the hash-family exploration of the seed quantifier runs in the instrumented build (C12 env part)")
 	vals := gen.Vals(enumPool...)
 	// instances in every representation
@@ -126,8 +126,8 @@ func Run(r *ev.Run) {
 			return
 		}
 		for i := range vals {
-			if len(cur) == 2 && i%2 == 1 {
-				continue // lists of three: the third member ranges over every other pool value
+			if len(cur) == 2 && i%3 != 0 {
+				continue // lists of three: the third member ranges over every third pool value
 			}
 			rec(append(cur, i))
 		}
@@ -365,6 +365,20 @@ func nestedUnique(r *ev.Run) {
 		}
 	}
 	pool := drive.MkPool(gen.Vals(insts...))
+	// uniqueItems beside keywords that constrain (some of) the same items: the comparison is made on
+	// every item and by JSON value, whatever the siblings say about the items' types
+	const d7 = `"$schema":"http://json-schema.org/draft-07/schema#",`
+	sibs := []string{
+		`{"uniqueItems":true,"items":{"type":"string"}}`, `{"uniqueItems":true,"items":{"type":"string"},"prefixItems":[true,true]}`, `{"uniqueItems":true,"items":{"type":"string"},"prefixItems":[{"type":"number"}]}`,
+		`{"uniqueItems":true,"items":{"type":"integer"}}`, `{"uniqueItems":true,"items":{"type":"number"},"prefixItems":[{"type":"string"}]}`, `{"uniqueItems":true,"contains":{"type":"string"}}`, `{"uniqueItems":true,"items":{"enum":["a","b",1,[1]]}}`,
+		`{"uniqueItems":true,"items":{"type":["string","number"]}}`, `{"uniqueItems":true,"items":{"maxLength":1},"maxItems":3}`, `{"uniqueItems":true,"items":{"type":"object"},"prefixItems":[true]}`, `{"uniqueItems":true,"items":{"type":"array"}}`, `{"uniqueItems":true,"items":{"type":"string"},"unevaluatedItems":false}`,
+		`{` + d7 + `"uniqueItems":true,"items":{"type":"string"}}`, `{` + d7 + `"uniqueItems":true,"items":{"$ref":"#/definitions/s","type":"string"},"definitions":{"s":{}}}`, `{` + d7 + `"uniqueItems":true,"items":[{"type":"string"}],"additionalItems":{"type":"number"}}`, `{` + d7 + `"uniqueItems":true,"items":[true,true],"additionalItems":{"type":"string"}}`,
+	}
+	sibPool := drive.MkPool(gen.Vals(`[]`, `["a"]`, `["a","a"]`, `["a","b"]`, `[1,2]`, `[1,1.0]`, `[1,2,"a"]`, `[1,2,"a","a"]`, `[1,"1"]`, `["1",1,1.0]`, `[[1],[2]]`, `[[1],[1]]`, `[{"a":1},{"a":2}]`, `[{"a":1},{"a":1.0}]`, `["a",1,2]`, `["a",1,1]`, `[1,"a","b"]`, `[1,"a","a"]`, `[true,false]`, `[null,null]`, `["a","b","a"]`, `["ab","a","b"]`))
+	r.Set("unique_sibling_schemas", len(sibs))
+	par.For(len(sibs), r.Expired, func(i int, j par.Journal) {
+		drive.Against(r, j, sibs[i], sibPool, drive.Opt{Draft: ref.D2020, Prefix: "siblings: "})
+	})
 	r.Set("nested_unique_schemas", len(schemas))
 	r.Set("nested_unique_instances", len(pool))
 	par.For(len(schemas), r.Expired, func(i int, j par.Journal) {
